@@ -28,11 +28,11 @@ def run(ctx):
     gens = [("interleavings", to_cases(take(h, 3000 if q else 60000, ctx.seed)))]
     n = 200 if q else 3000
     # a ModifySubscription changes priorities in mid-flight
-    mcm = dict(base, Acts={"Write", "Pub", "Tick", "ModifySub"}, KAs={2}, LtExtra={0}, Prios={1, 4, 7}, MaxDepth=len(setup_sets[0]) + (5 if q else 6),
+    mcm = dict(base, Acts={"Write", "Pub", "Tick", "ModifySub"}, KAs={2}, LtExtra={0}, Prios={1, 4, 7}, MaxDepth=len(setup_sets[0]) + 5,
                Mons={"C27"})
     ctx.model_check("design_modify", "MCSubs", mcm, ["C27"], view="MView")
     gm = {k: v for k, v in mcm.items() if k != "Mons"}
-    h, r = ctx.gen("modify", "GenSubs", dict(gm, MaxDepth=len(setup_sets[0]) + 5))
+    h, r = ctx.gen("modify", "GenSubs", dict(gm, MaxDepth=len(setup_sets[0]) + (5 if q else 4)))
     gens.append(("modify", to_cases(take(h, 1500 if q else 30000, ctx.seed), start=500000)))
     g3 = dict(base, Acts={"Write", "Pub", "Tick", "ModifySub"}, KAs={2}, LtExtra={0}, Prios={1, 4, 7}, MaxDepth=len(setup_sets[0]) + 24, MaxWrites=12,
               MaxPubs=12, MaxTicks=14, Dts={0, 1, 2})
